@@ -105,15 +105,21 @@ fn test(c: &Case) -> TestResult {
             let wr = req.is_writeable();
             let act = req.active_stream().map(u8::from);
             if wr && order.len() >= 2 {
-                // every stream before the last must have ended (its end record handed out)
+                // every stream before the last must have ended (the request cannot know that
+                // before the transport has handed it the stream's end record) or been skipped
+                // past (a later stream, or none, is selected). Which stream is active at that
+                // moment is not fixed by the statement.
                 let read_pos = world.lock().unwrap().read_pos;
-                for s in &order[..order.len() - 1] {
+                let act_idx = act.map_or(order.len(), |a| order.iter().position(|s| *s == a).unwrap_or(order.len()));
+                for (si, s) in order[..order.len() - 1].iter().enumerate() {
+                    if act_idx > si {
+                        continue; // skipped past
+                    }
                     match ends.get(s) {
-                        Some(&at) => vensure!(read_pos >= at, "c09-writeable-early", "request reports writeable after {read_pos} input bytes, but stream {s} only ends at byte {at}"),
-                        None => vfail!("c09-writeable-early", "request reports writeable although stream {s} never ends"),
+                        Some(&at) => vensure!(read_pos >= at, "c09-writeable-early", "request reports writeable after {read_pos} input bytes, but stream {s} (still selected) only ends at byte {at}"),
+                        None => vfail!("c09-writeable-early", "request reports writeable although stream {s} (still selected) never ends"),
                     }
                 }
-                vensure!(act == order.last().copied(), "c09-writeable-early", "writeable while the active stream is {act:?}, final stream is {:?}", order.last());
             }
             if order.len() <= 1 {
                 vensure!(wr, "c09-not-writeable", "role with <= 1 input stream is not writeable");
@@ -178,9 +184,8 @@ fn test(c: &Case) -> TestResult {
                     Some(Err(e)) => vfail!("c09-read-error", "op {oi}: writeable() failed on well-formed input: {e}"),
                     None => {}, // cancelled
                 }
-                if !order.is_empty() {
-                    vensure!(req.active_stream().map(u8::from) == order.last().copied(), "c09-set-stream", "op {oi}: after writeable() the active stream is {:?}, final stream {:?}", req.active_stream(), order.last());
-                }
+                // (that writeable() leaves the final stream selected is how the crate implements
+                // it; the statement does not demand it, so it is not checked)
             },
             Op::Write => {
                 if req.is_writeable() {
